@@ -64,6 +64,10 @@ type Property interface {
 	Assumptions() []string
 }
 
+// Isolated may be implemented by a Property whose cases must each run in a process of their own (the race detector
+// reports a given race once per process, so a report must not be able to hide behind an earlier case).
+type Isolated interface{ IsolateCases() bool }
+
 // Violation is one observed property violation.
 type Violation struct {
 	Config string `json:"config"`
@@ -98,6 +102,7 @@ type Ctx struct {
 	Deadline time.Time
 
 	idx        int
+	listOnly   bool
 	out        *bufio.Writer
 	stats      Stats
 	nontrivial map[uint64]struct{}
@@ -121,6 +126,10 @@ func (c *Ctx) Quick() bool { return c.Tier != "thorough" }
 func (c *Ctx) Case(name string, fn func(t *T)) {
 	i := c.idx
 	c.idx++
+	if c.listOnly {
+		fmt.Fprintf(c.out, "L %d %s\n", i, name)
+		return
+	}
 	if c.Only != "" {
 		if name != c.Only {
 			return
@@ -268,6 +277,8 @@ func workerMain(p Property, args []string) {
 			fmt.Sscanf(args[i+1], "%d/%d", &c.Shard, &c.NShards)
 		case "--only":
 			c.Only = args[i+1]
+		case "--list":
+			c.listOnly = args[i+1] == "1"
 		case "--after":
 			c.After, _ = strconv.Atoi(args[i+1])
 		case "--deadline":
@@ -541,6 +552,26 @@ func crashFrame(stderr string) string {
 	return topFrame([]byte(stderr[i:]))
 }
 
+// listCases asks a worker of the configuration for its case names (nothing is executed).
+func listCases(cfg Config, tier string) ([]string, error) {
+	cmd := exec.Command(binFor(cfg.Variant), "worker", "--tier", tier, "--config", cfg.Name, "--list", "1")
+	cmd.Env = append(os.Environ(), cfg.Env...)
+	out, err := cmd.Output()
+	if err != nil {
+		return nil, err
+	}
+	var names []string
+	for _, l := range strings.Split(string(out), "\n") {
+		if strings.HasPrefix(l, "L ") {
+			f := strings.SplitN(l[2:], " ", 2)
+			if len(f) == 2 {
+				names = append(names, f[1])
+			}
+		}
+	}
+	return names, nil
+}
+
 // Main is the entry point of every per-property binary.
 func Main(p Property) {
 	if len(os.Args) < 2 {
@@ -657,6 +688,7 @@ func checkMain(p Property, tier string) int {
 	type job struct {
 		cfg   Config
 		shard int
+		only  string
 	}
 	var jobs []job
 	for s := 0; s < nshards; s++ {
@@ -666,7 +698,23 @@ func checkMain(p Property, tier string) int {
 				fmt.Fprintf(os.Stderr, "HARNESS-ERROR unknown config %s\n", n)
 				return 2
 			}
-			jobs = append(jobs, job{cfg, s})
+			jobs = append(jobs, job{cfg: cfg, shard: s})
+		}
+	}
+	isolate := false
+	if iso, ok := p.(Isolated); ok && iso.IsolateCases() {
+		isolate = true
+		jobs = jobs[:0]
+		for _, n := range cfgNames {
+			cfg := configs[n]
+			names, err := listCases(cfg, tier)
+			if err != nil {
+				fmt.Fprintf(os.Stderr, "HARNESS-ERROR cannot list cases of %s: %v\n", n, err)
+				return 2
+			}
+			for _, cn := range names {
+				jobs = append(jobs, job{cfg: cfg, only: cn})
+			}
 		}
 	}
 	results := make([]workerResult, len(jobs))
@@ -678,7 +726,11 @@ func checkMain(p Property, tier string) int {
 		go func(i int, j job) {
 			defer wg.Done()
 			defer func() { <-sem }()
-			results[i] = runWorker(p, j.cfg, tier, j.shard, nshards, deadline, "")
+			if isolate {
+				results[i] = runWorker(p, j.cfg, tier, 0, 1, deadline, j.only)
+			} else {
+				results[i] = runWorker(p, j.cfg, tier, j.shard, nshards, deadline, "")
+			}
 		}(i, j)
 	}
 	wg.Wait()
@@ -763,24 +815,47 @@ func checkMain(p Property, tier string) int {
 			}
 			continue
 		}
-		v := vs[0]
-		confirmed := 0
+		// confirm by re-execution: the first instance, and if that does not reproduce, up to three further instances from
+		// other (configuration, case) pairs — an observation that is flaky in one case may be deterministic in another
 		reruns := 5
-		if strings.HasPrefix(v.Key, "hang@") {
+		if strings.HasPrefix(k, "hang@") {
 			reruns = 2 // each confirmation of a hang costs a full watchdog period
 		}
-		for r := 0; r < reruns; r++ {
-			rr := runWorker(p, configs[v.Config], tier, 0, 1, time.Time{}, v.Case)
-			for _, x := range rr.viols {
-				if x.Key == v.Key {
-					confirmed++
+		var v Violation
+		ok := false
+		tried := map[string]bool{}
+		for _, cand := range vs {
+			id := cand.Config + "\x00" + cand.Case
+			if tried[id] {
+				continue
+			}
+			if len(tried) >= 4 {
+				break
+			}
+			tried[id] = true
+			confirmed := 0
+			for r := 0; r < reruns; r++ {
+				rr := runWorker(p, configs[cand.Config], tier, 0, 1, time.Time{}, cand.Case)
+				hit := false
+				for _, x := range rr.viols {
+					if x.Key == cand.Key {
+						hit = true
+						break
+					}
+				}
+				if !hit {
 					break
 				}
+				confirmed++
 			}
-		}
-		if confirmed < reruns {
+			if confirmed == reruns {
+				v, ok = cand, true
+				break
+			}
 			nDiscarded++
-			fmt.Fprintf(os.Stderr, "discarded non-deterministic observation key=%s case=%s (%d/%d reproductions)\n", k, v.Case, confirmed, reruns)
+			fmt.Fprintf(os.Stderr, "discarded non-deterministic observation key=%s case=%s (%d/%d reproductions)\n", k, cand.Case, confirmed, reruns)
+		}
+		if !ok {
 			continue
 		}
 		nViol += len(vs)
